@@ -249,7 +249,11 @@ func (l *lexer) next(allowRegex bool) token {
 		return l.scanEscapedName(ch)
 	}
 
-	l.backup()
+	// Go back to the start of the token. backup is not safe
+	// here: a failed two-character symbol lookup above has
+	// already backed up once, and backup only remembers the
+	// width of the most recently read rune.
+	l.current = l.start
 	return l.scanName()
 }
 
@@ -333,12 +337,14 @@ func (l *lexer) scanNumber() token {
 		l.accept(isNonZeroDigit)
 		l.acceptAll(isDigit)
 	}
-	if l.acceptRune('.') {
+	if pos := l.current; l.acceptRune('.') {
 		if !l.acceptAll(isDigit) {
 			// If there are no digits after the decimal point,
 			// don't treat the dot as part of the number. It
 			// could be part of the range operator, e.g. "1..5".
-			l.backup()
+			// Return to the position of the dot (backup would
+			// use the width of the rune that followed it).
+			l.current = pos
 			return l.newToken(typeNumber)
 		}
 	}
